@@ -203,9 +203,11 @@ fn main() {
     for v1 in [false, true] {
         exh(&rt, "exh-2w", setup(vec![th(1, 0, 5), th(2, 0, 5)], vec![], v1), none, big, &mut runs);
     }
-    exh(&rt, "exh-2w-faults", setup(vec![th(1, 0, 5), th(2, 0, 5)], vec![], false), Budget { faults: if thorough { 2 } else { 1 }, stale: 0, crashes: 1 }, big, &mut runs);
+    let (done, n) = exh(&rt, "exh-2w-faults", setup(vec![th(1, 0, 5), th(2, 0, 5)], vec![], false), Budget { faults: if thorough { 2 } else { 1 }, stale: 0, crashes: 1 }, 20000, &mut runs);
+    sink.notes.push(format!("2 writers, faults + crash: {n} schedules, enumeration complete: {done}"));
     // (b) one writer + one reader: every interleaving with a fault (two in thorough), a stale read and a crash
-    exh(&rt, "exh-1w1r-faults", setup(vec![th(1, 0, 5), th(3, 1, 5)], vec![], false), Budget { faults: if thorough { 2 } else { 1 }, stale: 1, crashes: 1 }, big, &mut runs);
+    let (done, n) = exh(&rt, "exh-1w1r-faults", setup(vec![th(1, 0, 5), th(3, 1, 5)], vec![], false), Budget { faults: if thorough { 2 } else { 1 }, stale: 1, crashes: 1 }, 20000, &mut runs);
+    sink.notes.push(format!("1 writer + 1 reader, faults + stale read + crash: {n} schedules, enumeration complete: {done}"));
     exh(&rt, "exh-1w1r-v1", setup(vec![th(1, 0, 5), th(3, 1, 5)], vec![], true), Budget { faults: 0, stale: 1, crashes: if thorough { 1 } else { 0 } }, big, &mut runs);
     // a big (>= 5 MiB) manifest takes the extra head() of finalize_manifest
     exh(&rt, "exh-1w1r-big", setup(vec![Thread { tid: 1, role: 0, ver: 5, big: true }, th(3, 1, 5)], vec![], false), Budget { faults: 0, stale: 0, crashes: if thorough { 1 } else { 0 } }, big, &mut runs);
@@ -214,17 +216,13 @@ fn main() {
     {
         let s = setup(vec![th(1, 0, 5), th(2, 0, 5), th(3, 1, 5)], vec![], false);
         if thorough {
-            let (done, n) = exh(&rt, "exh-2w1r", s.clone(), none, big, &mut runs);
+            let (done, n) = exh(&rt, "exh-2w1r", s.clone(), none, 45000, &mut runs);
             sink.notes.push(format!("2 writers + 1 reader, no faults: {n} interleavings, enumeration complete: {done}"));
-            let (done, n) = exh(&rt, "exh-2w1r-fault1", s.clone(), Budget { faults: 1, stale: 0, crashes: 0 }, 120000, &mut runs);
-            sink.notes.push(format!("2 writers + 1 reader, one fault: {n} schedules, enumeration complete: {done}"));
-            let (done, n) = exh(&rt, "exh-2w1r-crash1", s, Budget { faults: 0, stale: 1, crashes: 1 }, 120000, &mut runs);
-            sink.notes.push(format!("2 writers + 1 reader, one crash + one stale read: {n} schedules, enumeration complete: {done}"));
-        } else {
-            for i in 0..1800 {
-                let o = rt.block_on(random_run(&s, &mut rng, i % 3 == 0));
-                runs.push(("rand-2w1r".into(), s.clone(), o));
-            }
+        }
+        // random interleavings with faults / stale reads / crashes (a capped search prefix would be biased)
+        for i in 0..args.vol(1800, 15000) {
+            let o = rt.block_on(random_run(&s, &mut rng, thorough || i % 3 == 0));
+            runs.push(("rand-2w1r".into(), s.clone(), o));
         }
     }
     // (d) versions that exist before the run (not yet on-boarded / on-boarded): the fallback of resolve_version_location
@@ -236,7 +234,7 @@ fn main() {
     // (e) resolve_latest_location next to a committing writer
     exh(&rt, "exh-latest", setup(vec![th(1, 0, 5), th(6, 2, 0)], vec![], false), Budget { faults: if thorough { 1 } else { 0 }, stale: 1, crashes: 1 }, big, &mut runs);
     if thorough {
-        exh(&rt, "exh-latest", setup(vec![th(1, 0, 5), th(2, 0, 6), th(6, 2, 0)], vec![(4, 1)], false), Budget { faults: 0, stale: 1, crashes: 0 }, 60000, &mut runs);
+        exh(&rt, "exh-latest", setup(vec![th(1, 0, 5), th(2, 0, 6), th(6, 2, 0)], vec![(4, 1)], false), Budget { faults: 0, stale: 1, crashes: 0 }, 8000, &mut runs);
     }
     for v1 in [false, true] {
         exh(&rt, "exh-latest-list", setup(vec![th(6, 2, 0), th(3, 1, 3)], vec![(3, 0), (4, 0)], v1), Budget { faults: 1, stale: 0, crashes: 0 }, big, &mut runs);
@@ -244,7 +242,7 @@ fn main() {
     exh(&rt, "exh-latest-list", setup(vec![th(6, 2, 0)], vec![], false), none, big, &mut runs);
 
     // (f) random schedules: 1-3 writers, 1-2 readers, 1-2 versions, faults / stale reads / crashes
-    for i in 0..args.vol(1500, 20000) {
+    for i in 0..args.vol(1500, 12000) {
         let nw = rng.range(1, 3);
         let nr = rng.range(1, 2);
         let mut threads: Vec<Thread> = (1..=nw).map(|t| Thread { tid: t, role: 0, ver: 5 + rng.below(2), big: rng.chance(1, 40) }).collect();
